@@ -239,6 +239,7 @@ def run(facts, rep):
     rep.inventory['E7 tables'] = {k: ({str(a): b for a, b in v.items()} if isinstance(v, dict) else v) for k, v in T.items()}
     selftest(T, rep)
     check_shared_visited(facts, rep)
+    check_exhaustive_sweep(facts, rep)
     return check_tables(T, rep)
 
 
@@ -278,6 +279,46 @@ def check_shared_visited(facts, rep):
                           'Link::%s: the visited-edge set is created in %s and used as %s; the fallback sweeps (start positions 1, 2) must see the edges the first sweep walked, '
                           'or they re-walk oriented components backwards and overwrite their crossing signs' % (fn, sorted(created) or 'nowhere', sorted(set(u[2] for u in uses))[:4]),
                           where='yui-link/src/link/link.rs')
+
+
+def check_exhaustive_sweep(facts, rep):
+    """T9: the orientation sweep of crossing_signs tries *every* crossing as a start: the loop `for i0 in 0..n` of the
+    sweep closure can only be left through the exhausted range (an already-visited start edge skips that crossing,
+    it must not end the sweep - components whose first under-crossing comes later would be walked by the fallback
+    pass in the wrong direction), and the range is 0 .. number of crossings."""
+    import cfgutil
+    from symex import SymEx
+    root = 'yui_link::link::link::Link::crossing_signs'
+    cl = [b for k, b in facts.bodies.items() if k.startswith(root + '::{closure') and k.count('{closure') == 1]
+    sweeps = []
+    for b in cl:
+        loops = cfgutil.for_loops(b)
+        if any((c.callee or '').endswith('traverse_edges') for c in b.calls()) and loops:
+            sweeps.append((b, loops))
+    if len(sweeps) != 1:
+        rep.indet('E7.T9: %d sweep closures with a start-crossing loop in crossing_signs' % len(sweeps))
+        return
+    b, loops = sweeps[0]
+    rep.saw(b)
+    inst = 'crossing_signs|the start-crossing loop is left only when all crossings were tried'
+    bad = []
+    for (I, N, some, none) in loops:
+        ex = cfgutil.early_exits(b, N, some)
+        if ex:
+            line = min((b.blocks[x]['term'].get('line', 0) for x in cfgutil.reach_without(b, some, {N}) if b.blocks[x]['term']['k'] == 'goto' and b.blocks[x]['term']['target'] in ex), default=0)
+            bad.append('the loop at bb%d can reach the return without exhausting its range (a `break` / `return` in the body)' % N)
+    rng = set()
+    for p in SymEx(b, havoc_loops=True, max_paths=5000).run():
+        for e in p.calls():
+            if e.name.endswith('into_iter') and e.args:
+                rng.add(re.sub(r'\^_ref__', '^', sk(e.args[0])))
+    if rng != {'Range::Range{start: 0, end: **arg1.^n}'}:
+        rep.indet('E7.T9: start-crossing range is %s' % sorted(rng))
+        return
+    if bad:
+        rep.violation('E7.T9-exhaustive-sweep', inst, 'Link::crossing_signs: ' + '; '.join(bad) + ': the sweep stops at the first crossing whose start edge was already visited, later components are left to the fallback pass and can be walked against their orientation (signs depend on the crossing order)', where=b.where())
+    else:
+        rep.ok('E7.T9-exhaustive-sweep', inst, 'for i0 in 0..n, exits only through next() == None')
 
 
 def selftest(T, rep):
